@@ -68,7 +68,10 @@ def run(ctx):
               "cell can reach; 2000 seeded lookups per reader with random yields/spins; each configuration repeated %d times.  Oracles: "
               "ThreadSanitizer (happens-before, schedule-independent for the accesses performed; a report counts when a frame lies under "
               "$VERIF_REPO/lib) and per-thread result digests against a sequential execution of the same operation lists; writers' cells checked "
-              "after join.  Overlap is shown by a ticket counter sampled with relaxed atomics (no happens-before edge).  non-trivial/distinct: "
+              "after join.  Further scenarios: two fields of different extents at once; cold start (first lookups of an instantiation made "
+              "concurrently); a pool started before the field exists; T threads each on its own by-value COPY of a view whose original has "
+              "been zeroed and freed; backup<>/clamp<> over storage holding NaN/inf/-0 cells swept by 6 and 16 threads with the concurrent "
+              "phase first and the storage compared bit-wise afterwards (lookups never modify a field).  Overlap is shown by a ticket counter sampled with relaxed atomics (no happens-before edge).  non-trivial/distinct: "
               "distinct interleaving signature (thread order by ticket) in which >= 2 threads overlapped") % (20 if ctx.thorough else 3),
         assumptions=["race freedom is judged by happens-before analysis of the executions performed, not by schedule enumeration",
                      "field construction happens-before the threads via std::thread creation only; OpenMP/CUDA runtimes are out of reach",
